@@ -148,6 +148,53 @@ def frontendsOp (args : List String) : Option OpEval := do
         | _ => ["malformed"]
       { model := joinBar [o1, o2, o3, o4], prop := cs } }
 
+/-- bits of a `0`/`1` string (`-` is the empty sequence) -/
+def parseBits? (t : String) : Option (List Bool) :=
+  if t == "-" then some [] else
+  t.toList.foldr (fun c acc => match acc, c with
+    | some l, '1' => some (true :: l)
+    | some l, '0' => some (false :: l)
+    | _, _ => none) (some [])
+
+/-- interpret the step tokens of `pseq` on the model's `Stats` -/
+def pseqSteps : List String → Proportion.Stats → Option Proportion.Stats
+  | [], s => some s
+  | "N" :: n :: k :: r, _ => do
+      let n ← parseNat? n; let k ← parseNat? k
+      pseqSteps r (← Proportion.Stats.new? n k)
+  | "X" :: bs :: r, s => do pseqSteps r (s.extend (← parseBits? bs))
+  | "I" :: bs :: r, s => do
+      let b ← parseBits? bs
+      pseqSteps r (s.extendIf (b.map fun x => if x then (1 : Int) else 0) (fun x => x == 1))
+  | "S" :: r, s => pseqSteps r s.addSuccess
+  | "F" :: r, s => pseqSteps r s.addFailure
+  | "P" :: n :: k :: r, s => do
+      let n ← parseNat? n; let k ← parseNat? k
+      pseqSteps r (s.merge (← Proportion.Stats.new? n k))
+  | "Q" :: n :: k :: r, s => do
+      let n ← parseNat? n; let k ← parseNat? k
+      pseqSteps r (s.merge (← Proportion.Stats.new? n k))
+  | "R" :: bs :: r, _ => do pseqSteps r (Proportion.Stats.fromList (← parseBits? bs))
+  | _, _ => none
+
+/-- `pseq p conf steps… => population successes | ci` : a running `Stats` driven by a history -/
+def pseqOp (args : List String) : Option OpEval := do
+  let (conf, r) ← pConf args
+  let s ← pseqSteps r Proportion.Stats.empty
+  pure {
+    needs := zNeed conf
+    run := fun crit impl =>
+      let o := tokOutcome tokUnitInterval (s.ci crit conf)
+      let z := crit (.z conf.quantile)
+      -- oracle: the interval of the counts the history implies
+      let cs := match impl with
+        | [c, a] =>
+          (if c == [toString s.population, toString s.successes] then [] else
+            [s!"counts({" ".intercalate c})-differ-from-history({s.population} {s.successes})"]) ++
+          oracleWilson conf s.population s.successes z a
+        | _ => ["malformed"]
+      { model := joinBar [[Tok.s (toString s.population), .s (toString s.successes)], o], prop := cs } }
+
 /-- `ratio p conf n rate k|- => ci_wilson_ratio` -/
 def ratioOp (args : List String) : Option OpEval := do
   let (conf, r) ← pConf args
@@ -366,6 +413,7 @@ def propOp (op ty : String) (args : List String) : Option OpEval :=
   | "wilson", "p" => wilsonOp args
   | "frontends", "p" => frontendsOp args
   | "ratio", "p" => ratioOp args
+  | "pseq", "p" => pseqOp args
   | "rel", "p" => relOp args
   | "qidx", "n" => qidxOp args
   | "qci", "i" => qciOp (T := Int) args
